@@ -106,13 +106,45 @@ def rounding_occurrences(t, nf, limit=20000):
         return None
 
 
+def const_value(x):
+    """exact value of a constant float term (literal, converted integer literal, negated constant)"""
+    if x[0] == 'fc':
+        return f64_bits_to_fraction(x[1])
+    if x[0] == 'i2f' and x[1][0] == 'ic':
+        return Fraction(x[1][1])
+    if x[0] == 'fneg':
+        c = const_value(x[1])
+        return None if c is None else -c
+    return None
+
+
+def is_exact_op(x):
+    """operations that never round: ×/÷ by ±2^k (in particular by 1), ± a literal zero"""
+    h = x[0]
+    if h == 'f*':
+        a, b = const_value(x[1]), const_value(x[2])
+        return (a is not None and _is_pow2(a)) or (b is not None and _is_pow2(b))
+    if h == 'f/':
+        b = const_value(x[2])
+        return b is not None and _is_pow2(b)
+    if h in ('f+', 'f-'):
+        a, b = const_value(x[1]), const_value(x[2])
+        return (a is not None and a == 0) or (b is not None and b == 0)
+    return False
+
+
 def count_rounded_ops(t):
     """number of distinct rounded float operations in the DAG (the 'small multiple')"""
     from ..terms import subterms
     n = 0
+    seen = set()
     for x in subterms(t):
+        if x in seen:
+            continue
+        seen.add(x)
         if x[0] in ('f+', 'f-', 'f*', 'f/', 'fma'):
-            n += 1
+            if not is_exact_op(x):
+                n += 1
         elif x[0] == 'fcall':
             n += 1
     return n
